@@ -8,6 +8,7 @@ namespace PPLV.Watchdog
 /-- pc-independent part -/
 structure Base (σ : St) : Prop where
   noErr : σ.err = false
+  cfg : σ.reschedBug = false
   normT : σ.tsf.Norm
   normL : σ.ltr.Norm
   normP : AllNorm σ.pending
@@ -19,7 +20,7 @@ structure Base (σ : St) : Prop where
 `time_so_far + last_time_requested - remaining` does not run ahead: for every pending element,
 birth + delay + (reconstructed clock) ≤ recorded deadline + real time -/
 def Armed (σ : St) : Prop :=
-  σ.running = true ∧ 0 < σ.remaining ∧ σ.remaining ≤ σ.ltr.toUs ∧
+  σ.running = true ∧ 0 ≤ σ.remaining ∧ σ.remaining ≤ σ.ltr.toUs ∧
   (∃ e r, σ.pending = e :: r ∧ e.deadline.toUs = σ.tsf.toUs + σ.ltr.toUs) ∧
   ∀ e ∈ σ.pending, e.gBirth + e.gCs * 10000 + (σ.tsf.toUs + σ.ltr.toUs - σ.remaining) ≤ e.deadline.toUs + σ.now
 
@@ -54,6 +55,10 @@ def PcInvAt (σ : St) (pc : PC) : Prop :=
   | .s1 id => σ.inCrit = true ∧ Armed σ ∧ ∃ e, σ.pending = [e] ∧ e.id = id
   | .s2 id => σ.inCrit = true ∧ Armed σ ∧ (∃ e, σ.pending = [e] ∧ e.id = id) ∧ σ.sigOnce = Time.zero
   | .dEnd _ => σ.inCrit = true ∧ Stable σ
+  | .l2 _ => σ.inCrit = false ∧ Stable σ
+  | .l3 _ tts => σ.inCrit = false ∧ Stable σ ∧ (tts.isZero = true → σ.remaining = 0)
+  | .l4 _ => σ.inCrit = false ∧ σ.remaining = 0 ∧ PreArmed σ σ.pending
+  | .l5 _ => σ.inCrit = false ∧ Stable σ
 
 def PcInv (σ : St) : Prop := PcInvAt σ σ.pc
 
@@ -65,36 +70,49 @@ theorem pcInv_of {σ : St} {pc : PC} (h : σ.pc = pc) : PcInv σ ↔ PcInvAt σ 
   unfold PcInv; rw [h]
 
 theorem lag_init : LagInv {} := by
-  refine ⟨⟨rfl, Time.norm_zero, Time.norm_zero, ?_, ?_, Int.le_refl 0, ?_⟩, ?_⟩
+  refine ⟨⟨rfl, rfl, Time.norm_zero, Time.norm_zero, ?_, ?_, Int.le_refl 0, ?_⟩, ?_⟩
   · intro e he; simp at he
   · simp [Sorted]
   · intro id t b cs hh; simp at hh
   · show PcInvAt {} PC.idle
     exact ⟨rfl, Or.inr ⟨rfl, rfl, rfl⟩⟩
 
-/-- outside a critical section the program is between operations or at the destructor's entry -/
-theorem pcInv_notCrit {σ : St} (h : PcInv σ) (hc : σ.inCrit = false) :
-    (σ.pc = .idle ∨ ∃ id, σ.pc = .d1 id) ∧ Stable σ := by
+/-- outside a critical section, with the timer armed: the state is `Stable`, and the pc assertion
+survives any change that keeps pc, stays outside the critical section and ends `Stable` -/
+theorem pcInv_async {σ : St} (h : PcInv σ) (hc : σ.inCrit = false) (hr : 0 < σ.remaining) :
+    Stable σ ∧ ∀ σ' : St, σ'.pc = σ.pc → σ'.inCrit = false → Stable σ' → PcInv σ' := by
   unfold PcInv at h
   cases hpc : σ.pc <;> rw [hpc] at h <;> simp only [PcInvAt] at h
-  · exact ⟨Or.inl rfl, h.2⟩
-  all_goals first
-    | exact ⟨Or.inr ⟨_, rfl⟩, h.2⟩
-    | (have := h.1; rw [hc] at this; exact absurd this (by simp))
+  case idle => exact ⟨h.2, fun σ' h1 h2 h3 => by unfold PcInv; rw [h1]; exact ⟨h2, h3⟩⟩
+  case d1 => exact ⟨h.2, fun σ' h1 h2 h3 => by unfold PcInv; rw [h1]; exact ⟨h2, h3⟩⟩
+  case l2 => exact ⟨h.2, fun σ' h1 h2 h3 => by unfold PcInv; rw [h1]; exact ⟨h2, h3⟩⟩
+  case l5 => exact ⟨h.2, fun σ' h1 h2 h3 => by unfold PcInv; rw [h1]; exact ⟨h2, h3⟩⟩
+  case l3 fin tts =>
+    have hnz : tts.isZero = false := by
+      cases hz : tts.isZero
+      · rfl
+      · have := h.2.2 hz; omega
+    exact ⟨h.2.1, fun σ' h1 h2 h3 => by
+      unfold PcInv; rw [h1]; exact ⟨h2, h3, fun hz => by rw [hnz] at hz; exact absurd hz (by simp)⟩⟩
+  case l4 => have := h.2.1; omega
+  all_goals (have := h.1; rw [hc] at this; exact absurd this (by simp))
 
 /-! ### time passes without the timer expiring -/
 
-theorem Armed.advance {σ σ' : St} (h : Armed σ) (d : Int) (hd : 0 ≤ d) (hlt : d < σ.remaining)
-    (hnow : σ'.now = σ.now + d) (hrem : σ'.remaining = σ.remaining - d)
+theorem Armed.advance {σ σ' : St} (h : Armed σ) (d : Int) (hd : 0 ≤ d)
+    (hcase : (d ≤ σ.remaining ∧ σ'.remaining = σ.remaining - d) ∨
+             (σ.remaining = 0 ∧ σ'.remaining = σ.remaining))
+    (hnow : σ'.now = σ.now + d)
     (hpend : σ'.pending = σ.pending) (htsf : σ'.tsf = σ.tsf) (hltr : σ'.ltr = σ.ltr)
     (hrun : σ'.running = σ.running) : Armed σ' := by
   obtain ⟨a1, a2, a3, a4, a5⟩ := h
   unfold Armed
-  rw [hrun, hrem, hltr, htsf, hpend, hnow]
-  refine ⟨a1, by omega, by omega, a4, ?_⟩
+  rw [hrun, hltr, htsf, hpend, hnow]
+  refine ⟨a1, by rcases hcase with ⟨c1, c2⟩ | ⟨c1, c2⟩ <;> omega,
+    by rcases hcase with ⟨c1, c2⟩ | ⟨c1, c2⟩ <;> omega, a4, ?_⟩
   intro e he
   have := a5 e he
-  omega
+  rcases hcase with ⟨c1, c2⟩ | ⟨c1, c2⟩ <;> omega
 
 theorem PreArmed.advance {σ σ' : St} {pend : List Ev} (h : PreArmed σ pend) (d : Int) (hd : 0 ≤ d)
     (hnow : σ'.now = σ.now + d) (htsf : σ'.tsf = σ.tsf) (hltr : σ'.ltr = σ.ltr)
@@ -109,20 +127,16 @@ theorem PreArmed.advance {σ σ' : St} {pend : List Ev} (h : PreArmed σ pend) (
 
 /-- time passes, the timer (if armed) does not expire: every pc assertion is kept -/
 theorem PcInv.advance {σ σ' : St} (h : PcInv σ) (d : Int) (hd : 0 ≤ d)
-    (hcase : (d < σ.remaining ∧ σ'.remaining = σ.remaining - d) ∨
+    (hcase : (d ≤ σ.remaining ∧ σ'.remaining = σ.remaining - d) ∨
              (σ.remaining = 0 ∧ σ'.remaining = σ.remaining))
     (hnow : σ'.now = σ.now + d) (hpend : σ'.pending = σ.pending) (htsf : σ'.tsf = σ.tsf)
     (hltr : σ'.ltr = σ.ltr) (hso : σ'.sigOnce = σ.sigOnce) (hrun : σ'.running = σ.running)
     (hcrit : σ'.inCrit = σ.inCrit) (hpc : σ'.pc = σ.pc) : PcInv σ' := by
-  have armed' : Armed σ → Armed σ' := by
-    intro ha
-    rcases hcase with ⟨h1, h2⟩ | ⟨h1, _⟩
-    · exact ha.advance d hd h1 hnow h2 hpend htsf hltr hrun
-    · have := ha.2.1; omega
+  have armed' : Armed σ → Armed σ' := fun ha => ha.advance d hd hcase hnow hpend htsf hltr hrun
   have stopped' : Stopped σ → Stopped σ' := by
     rintro ⟨s1, s2, s3⟩
     refine ⟨by rw [hrun]; exact s1, ?_, by rw [hpend]; exact s3⟩
-    rcases hcase with ⟨h1, _⟩ | ⟨_, h2⟩
+    rcases hcase with ⟨h1, h2⟩ | ⟨_, h2⟩
     · omega
     · rw [h2]; exact s2
   have stable' : Stable σ → Stable σ' := fun hs => hs.elim (fun x => Or.inl (armed' x)) (fun x => Or.inr (stopped' x))
@@ -161,12 +175,22 @@ theorem PcInv.advance {σ σ' : St} (h : PcInv σ) (d : Int) (hd : 0 ≤ d)
   · obtain ⟨h1, h2, h3, h4⟩ := h
     exact ⟨h1, armed' h2, by rw [hpend]; exact h3, by rw [hso]; exact h4⟩
   · exact ⟨h.1, stable' h.2⟩
+  · exact ⟨h.1, stable' h.2⟩
+  · obtain ⟨h1, h2, h3⟩ := h
+    refine ⟨h1, stable' h2, fun hz => ?_⟩
+    have := h3 hz
+    rcases hcase with ⟨c1, c2⟩ | ⟨c1, c2⟩ <;> omega
+  · obtain ⟨h1, h2, h3⟩ := h
+    refine ⟨h1, ?_, by rw [hpend]; exact pre' _ h3⟩
+    rcases hcase with ⟨c1, c2⟩ | ⟨c1, c2⟩ <;> omega
+  · exact ⟨h.1, stable' h.2⟩
 
 theorem Base.advance {σ σ' : St} (h : Base σ) (hrem : 0 ≤ σ'.remaining)
     (hpend : σ'.pending = σ.pending) (htsf : σ'.tsf = σ.tsf) (hltr : σ'.ltr = σ.ltr)
-    (herr : σ'.err = σ.err) (hlog : σ'.log = σ.log) : Base σ' := by
+    (herr : σ'.err = σ.err) (hlog : σ'.log = σ.log) (hcfg : σ'.reschedBug = σ.reschedBug) : Base σ' := by
   constructor
   · rw [herr]; exact h.noErr
+  · rw [hcfg]; exact h.cfg
   · rw [htsf]; exact h.normT
   · rw [hltr]; exact h.normL
   · rw [hpend]; exact h.normP
